@@ -21,6 +21,7 @@ ASSUMPTIONS = [
     'L-cumsum-mono: cumulative sums of positive integers are strictly increasing (assumed in the qtt2tt contract; needs induction)',
     'L-prod-pos / L-prod-front / L-prod-split: a product of positive integers is positive; prod(l[a:b]) = l[a] * prod(l[a+1:b]); '
     'prod(l[0:n]) = prod(l[0:k]) * prod(l[k:n]) (assumed for the uninterpreted slice products; each needs induction over the slice)',
+    'L-prod-interleave: prod(p) = prod(p[0::2]) * prod(p[1::2]) for a list of even length (assumed for the final reshape of TT.full; needs induction)',
     'A-vacuity: where z3 cannot build a model of a quantified path condition the vacuity guard degrades to "no contradiction derivable '
     'within the obligation budget" (counted in coverage.e1_vacuity_inconclusive)',
     'A-engine: the VC generator vt/e1 itself (mitigated by canary obligations that must be refuted on every run and '
